@@ -1,6 +1,6 @@
 mod field;
 
-use std::io;
+use std::{io, iter};
 
 use noodles_vcf::{
     self as vcf,
@@ -70,9 +70,63 @@ impl vcf::variant::record::Info for Info<'_> {
         header: &'h vcf::Header,
     ) -> Box<dyn Iterator<Item = io::Result<(&'a str, Option<Value<'a>>)>> + 'a> {
         let mut src = self.as_ref();
+        let mut n = self.len();
 
-        Box::new((0..self.len()).map(move |_| {
-            read_field(&mut src, header).map_err(|e| io::Error::new(io::ErrorKind::InvalidData, e))
+        Box::new(iter::from_fn(move || {
+            if n == 0 {
+                return None;
+            }
+
+            n -= 1;
+
+            let result = read_field(&mut src, header)
+                .map_err(|e| io::Error::new(io::ErrorKind::InvalidData, e));
+
+            // The field count is not validated against the data. Stop after the first error
+            // rather than returning one for each of the remaining fields.
+            if result.is_err() {
+                n = 0;
+            }
+
+            Some(result)
         }))
+    }
+}
+
+#[cfg(test)]
+mod tests {
+    use noodles_vcf::header::{
+        StringMaps,
+        record::value::{Map, map::Info as InfoMap},
+    };
+
+    use super::*;
+
+    #[test]
+    fn test_iter_with_a_field_count_greater_than_the_number_of_fields() -> io::Result<()> {
+        use vcf::variant::record::info::field::key;
+
+        let mut header = vcf::Header::builder()
+            .add_info(key::TOTAL_DEPTH, Map::<InfoMap>::from(key::TOTAL_DEPTH))
+            .build();
+
+        *header.string_maps_mut() = StringMaps::try_from(&header)
+            .map_err(|e| io::Error::new(io::ErrorKind::InvalidInput, e))?;
+
+        let src = [
+            0x11, 0x01, 0x11, 0x05, // infos[DP] = 5
+        ];
+
+        let info = Info::new(&src, usize::from(u16::MAX));
+        let mut iter = vcf::variant::record::Info::iter(&info, &header);
+
+        assert!(matches!(
+            iter.next(),
+            Some(Ok((key::TOTAL_DEPTH, Some(Value::Integer(5)))))
+        ));
+        assert!(matches!(iter.next(), Some(Err(_))));
+        assert!(iter.next().is_none());
+
+        Ok(())
     }
 }
